@@ -187,8 +187,23 @@ var boundarySeconds = func() []int64 {
 		p := int64(1) << k
 		out = append(out, p-1, p, p+1, -p-1, -p, -p+1, p+p/2, -p-p/2)
 	}
+	// where a seconds count stops fitting an int64 once it is converted to milli-, micro- or nanoseconds (time.Time's
+	// UnixNano / Duration limits: 2262-04-11 and 1677-09-21)
+	for _, u := range []int64{1e3, 1e6, 1e9} {
+		for _, lim := range []int64{math.MaxInt64 / u, math.MinInt64 / u} {
+			out = append(out, lim-1, lim, lim+1)
+		}
+	}
 	return out
 }()
+
+// the nanosecond remainders of the int64 nanosecond range, next to the ordinary extremes
+var boundaryNanos = []int32{0, 1, 999999999, 500000000, maxRem - 1, maxRem, maxRem + 1, minRem - 1, minRem, minRem + 1}
+
+const (
+	maxRem = int32(math.MaxInt64 % 1000000000)              // 854775807
+	minRem = int32(1000000000 + math.MinInt64%1000000000) // 145224192
+)
 
 func genEndpoint(t *rapid.T, label string) endpoint {
 	switch rapid.IntRange(0, 9).Draw(t, label+"kind") {
@@ -197,7 +212,7 @@ func genEndpoint(t *rapid.T, label string) endpoint {
 	case 1, 2: // extremes of the 64 bit range, and values around powers of two (where packed or narrowed representations break)
 		return endpoint{
 			Sec:   rapid.SampledFrom(boundarySeconds).Draw(t, label+"sec"),
-			Nanos: rapid.SampledFrom([]int32{0, 1, 999999999}).Draw(t, label+"ns"),
+			Nanos: rapid.SampledFrom(boundaryNanos).Draw(t, label+"ns"),
 		}
 	case 3, 4, 5: // valid Timestamp range 0001-01-01 .. 9999-12-31
 		return endpoint{Sec: rapid.Int64Range(-62135596800, 253402300799).Draw(t, label+"sec"), Nanos: rapid.Int32Range(0, 999999999).Draw(t, label+"ns")}
@@ -217,7 +232,7 @@ func TestPeriodsRandom(t *testing.T) {
 				if (d > 0 && base.Sec > math.MaxInt64-d) || (d < 0 && base.Sec < math.MinInt64-d) {
 					d = 0
 				}
-				return endpoint{Sec: base.Sec + d, Nanos: rapid.SampledFrom([]int32{0, 1, 999999999, base.Nanos}).Draw(t, label+"ns")}
+				return endpoint{Sec: base.Sec + d, Nanos: rapid.SampledFrom(append([]int32{base.Nanos}, boundaryNanos...)).Draw(t, label+"ns")}
 			}
 			return genEndpoint(t, label)
 		}
@@ -297,4 +312,35 @@ func TestCompareRandom(t *testing.T) {
 			t.Fatal(err)
 		}
 	})
+}
+
+// TestCompareBoundaryPairs enumerates every ordered pair of endpoints whose seconds sit at a unit-conversion limit of
+// the int64 range (or at 0 / +-1) and whose nanoseconds are boundary remainders: the places where a comparison that
+// goes through a narrower or converted representation (unix nanoseconds, a Duration, a float) stops being the
+// chronological order.
+func TestCompareBoundaryPairs(t *testing.T) {
+	var eps []endpoint
+	secs := []int64{0, 1, -1, math.MaxInt64, math.MinInt64}
+	for _, u := range []int64{1e3, 1e6, 1e9} {
+		for _, lim := range []int64{math.MaxInt64 / u, math.MinInt64 / u} {
+			secs = append(secs, lim-1, lim, lim+1)
+		}
+	}
+	for _, s := range secs {
+		for _, n := range boundaryNanos {
+			eps = append(eps, endpoint{Sec: s, Nanos: n})
+		}
+	}
+	done := false
+	lib.Enumerate(t, "TestCompareBoundaryPairs", func(yield func(cmpCase) bool) {
+		for i, a := range eps {
+			for _, b := range eps {
+				if !yield(cmpCase{a, b, eps[(i*7+3)%len(eps)]}) {
+					return
+				}
+			}
+		}
+		done = true
+	}, func(c cmpCase) error { return checkCompare(c.A, c.B, c.C) })
+	lib.Ev.Exhaustive(fmt.Sprintf("compare over %d boundary endpoints (seconds at the ms/us/ns conversion limits of int64, boundary nanos), all ordered pairs", len(eps)), done)
 }
